@@ -39,7 +39,48 @@ pub fn gen_packets(r: &mut Rng, thorough: bool, cx: &mut Ctx) {
 }
 fn show_frames(fs: &[Frame], o: &mut L) { o.push(fs.len() as u64); for f in fs { show_frame(f, o); } }
 
+// Fragmentation and reassembly are pure: nothing an earlier reassembly (fragmentation) did may show in a later fragmentation (reassembly).
+// Before its first case the FRG stream lets the process reassemble - complete packets, packets cut short, frames offered twice, out of
+// order and to the wrong builder - and the BLD stream first fragments packets of several sizes; results discarded.
+fn reassembled_before() {
+    static ONCE: std::sync::Once = std::sync::Once::new();
+    ONCE.call_once(|| {
+        let mut r = Rng::new(0x0070_6163_6b65_7401);
+        for n in 0..200usize {
+            let len = match n % 4 { 0 => r.below(9) as usize, 1 => r.range(9, 30) as usize, 2 => r.range(30, 200) as usize, _ => r.range(9, 60) as usize };
+            let p = Packet { is_error: r.coin(), device_address: r.u16b() as u16, data: r.bytes(len) };
+            let mode = r.below(5);
+            let _ = guarded(move || {
+                let fs = p.to_frames();
+                let mut it = fs.iter().map(copy_frame);
+                if let Some(f0) = it.next() { if let Ok(mut b) = PacketBuilder::new(f0) {
+                    let rest: Vec<Frame> = it.collect();
+                    for (i, f) in rest.iter().enumerate() {
+                        if mode == 1 && i == rest.len() / 2 { break; }                                     // cut short
+                        if mode == 2 && i == 1 { let _ = b.add_frame(copy_frame(&rest[0])); }              // a duplicate
+                        if mode == 3 && i + 1 < rest.len() && i == 0 { let _ = b.add_frame(copy_frame(&rest[1])); }   // a gap
+                        if mode == 4 && i == 0 { let mut g = copy_frame(f); g.device_address ^= 1; let _ = b.add_frame(g); }   // a foreign frame
+                        let _ = b.add_frame(copy_frame(f));
+                    }
+                    let _ = b.frames_left(); let _ = b.build();
+                } }
+            });
+        }
+    });
+}
+fn fragmented_before() {
+    static ONCE: std::sync::Once = std::sync::Once::new();
+    ONCE.call_once(|| {
+        let mut r = Rng::new(0x0070_6163_6b65_7402);
+        for n in 0..200usize {
+            let len = match n % 4 { 0 => r.below(9) as usize, 1 => r.range(9, 30) as usize, 2 => r.range(30, 200) as usize, _ => 7 * r.range(1, 40) as usize };
+            let p = Packet { is_error: r.coin(), device_address: r.u16b() as u16, data: r.bytes(len) };
+            let _ = guarded(move || { let _ = p.to_frames(); });
+        }
+    });
+}
 pub fn exec_frg(case: &[u64]) -> L {
+    reassembled_before();
     let (p, _) = parse_packet(case);
     let mut o = vec![];
     match guarded(move || p.to_frames()) {
@@ -106,6 +147,7 @@ fn finger(b: &PacketBuilder, o: &mut L) {
     show_build(guarded(|| b.build()), o);
 }
 pub fn exec_bld(case: &[u64]) -> L {
+    fragmented_before();
     let n = case[0] as usize;
     let mut rest = &case[1..];
     let mut frames = vec![];
